@@ -811,4 +811,59 @@ theorem sparse_call_no_collision_counterexample :
       [('x', .sparse [(.str "p", .num 2)]), ('a', .sparse [(.str "k", .num 5)])] = true
     ∧ collides [.num 1, .term ['c']] [('c', .sparse [(.str "onst", .num 2)])] = true := by decide +kernel
 
+/-! ## Phase 6: ownership histories (the caller edits what it shares with the encoder) -/
+
+/-- for EVERY history of caller steps around one encoder — `encode` calls interleaved, in any order and number, with
+in-place edits of the term list the caller passed to the constructor and with overwriting of results it was handed —
+the k-th `encode` call returns the specification of the terms the encoder was CONSTRUCTED with and of its own
+arguments; and the encoder's own term lists are, at the end, still the constructor's -/
+theorem own_history_eq_spec (is : List Inter) (ops : List OwnOp) (hne : ∀ t ∈ strTerms is, t ≠ []) :
+    (ownRun OwnCfg.code Cfg.fixed is ops).1 = (ownCalls ops).map (fun kw => .ok (encodeS is kw))
+    ∧ (ownRun OwnCfg.code Cfg.fixed is ops).2.encTerms = is :=
+  own_history_eq_spec' is ops hne
+
+/-- … for every configuration of the three repairs and from every state: the returned values are the call-by-call
+values for the encoder's own terms, which no step changes -/
+theorem own_history_callwise (cfg : Cfg) (ops : List OwnOp) (s : OwnState) :
+    (ownRunFrom OwnCfg.code cfg s ops).1 = (ownCalls ops).map (encode cfg s.encTerms)
+    ∧ (ownRunFrom OwnCfg.code cfg s ops).2.encTerms = s.encTerms :=
+  ownRunFrom_code' cfg ops s
+
+/-- the caller ends up holding exactly one result per `encode` call (edits never add or drop one) -/
+theorem own_results_length (oc : OwnCfg) (cfg : Cfg) (ops : List OwnOp) (s : OwnState) :
+    (ownRunFrom oc cfg s ops).2.results.length = s.results.length + (ownCalls ops).length :=
+  own_results_length' oc cfg ops s
+
+/-- non-vacuity: a history with both kinds of edits between two calls -/
+example : (ownRun OwnCfg.code Cfg.fixed [.num 1, .term ['x', 'a']]
+      [.encode [('x', .dense [.num 2, .num 3]), ('a', .dense [.num 5])], .editResult 0 (.dense []), .editTerms [],
+       .encode [('x', .dense [.num 2]), ('a', .scalar (.num 7))]]).1
+    = [.ok (.dense [1, 10, 15]), .ok (.dense [1, 14])] := by decide +kernel
+
+/-- the copy made by the constructor is needed: an encoder that KEEPS the caller's list (`copyTerms := false`) returns,
+after the caller appended `'xx'` to its list, the expansion of the edited list (`[2,4]`) — the code's constructor copies
+(`[2]`). The witness is a corpus case replayed on the real code. -/
+theorem own_keep_terms_counterexample :
+    (ownRun ⟨false⟩ Cfg.fixed [.term ['x']]
+        [.editTerms [.term ['x'], .term ['x', 'x']], .encode [('x', .dense [.num 2])]]).1
+      = [.ok (.dense [2, 4])]
+    ∧ (ownRun OwnCfg.code Cfg.fixed [.term ['x']]
+        [.editTerms [.term ['x'], .term ['x', 'x']], .encode [('x', .dense [.num 2])]]).1
+      = [.ok (.dense [2])] :=
+  own_keep_terms_counterexample'
+
+/-- translator obligation (phase 6): what `pre_build` reads off the CURRENT `coba/encodings.py` — the constructor uses its
+term-list parameter only as the iterable of comprehensions / copying calls (never stores it), and `encode` returns a newly
+built list / dict that it does not keep — is the ownership configuration the model runs (`OwnCfg.code`, fresh result slots in
+`OwnState.step`). An encoder that keeps the caller's list, or memoises the object it hands out, breaks this. -/
+theorem own_source :
+    OwnCfg.code = ⟨Coba.Generated.C20.initCopiesTerms⟩ ∧ Coba.Generated.C20.encodeReturnsFresh = true
+    ∧ Coba.Generated.C20.ownershipExtracted = true :=
+  ⟨rfl, rfl, rfl⟩
+
+/-- … hence the history theorem holds for the configuration read off the source -/
+theorem own_source_history (is : List Inter) (ops : List OwnOp) (hne : ∀ t ∈ strTerms is, t ≠ []) :
+    (ownRun ⟨Coba.Generated.C20.initCopiesTerms⟩ Cfg.fixed is ops).1 = (ownCalls ops).map (fun kw => .ok (encodeS is kw)) :=
+  (own_history_eq_spec' is ops hne).1
+
 end Coba.C20
